@@ -200,20 +200,22 @@ class Exec(StmtMixin):
                 allowed_params.add(m)
             elif parts[0] in S.RECORDS and parts[0] not in entry.locals and len(parts) == 2:
                 rec, _ = S.lookup_field(parts[0], parts[1])
-                allowed_fields.add((rec, parts[1]))
+                allowed_fields.add(S.fkey(rec, parts[1]))
             else:
                 cur = entry.locals[parts[0]]
                 for p in parts[1:-1]:
                     cur = self.attr_read_pure(cur, p, entry)
                 cur = O.strip_opt(cur)
                 rec, _ = S.lookup_field(cur.ty.name, parts[-1])
-                allowed_cells.setdefault((rec, parts[-1]), []).append(cur.t)
+                allowed_cells.setdefault(S.fkey(rec, parts[-1]), []).append(cur.t)
         for (rec, field, i), arr in st.heap.maps.items():
             if (rec, field) in allowed_fields:
                 continue
             old = entry.heap.maps.get((rec, field, i))
             if old is None:
                 _, fty = S.lookup_field(rec, field)
+                if fty is None:
+                    raise UnsupportedError(f"internal: heap map for unknown field {rec}.{field}")
                 old = entry.heap.key_arrays(rec, field, fty)[i]
             if arr.eq(old):
                 continue
